@@ -91,7 +91,8 @@ def _analog_cycles(spec, clock_freq=260e06):
         raise ValueError(msg)
     out_x, out_y = spec['output_shape'][2:]
     # static sizes (e.g. the out_features of a linear layer) come as plain ints
-    ch_out = torch.as_tensor(ch_out, dtype=torch.float32)
+    if not isinstance(ch_out, torch.Tensor):
+        ch_out = torch.tensor(float(ch_out))
     ox_unroll_base = ComputeOxUnrollSTE.apply(ch_out, ch_in, k_x, k_y)
     cycles_comp = FloorSTE.apply(ch_out, 512) * _floor(ch_in, 128) * out_x * out_y / ox_unroll_base
     cycles_weights = 4 * 2 * ch_in * k_x * k_y
@@ -113,7 +114,8 @@ def _digital_cycles(spec):
     groups = spec['groups']
     out_x, out_y = spec['output_shape'][2:]
     # static sizes (e.g. the out_features of a linear layer) come as plain ints
-    ch_out = torch.as_tensor(ch_out, dtype=torch.float32)
+    if not isinstance(ch_out, torch.Tensor):
+        ch_out = torch.tensor(float(ch_out))
     # N.B., `ch_out` requires STE while `out_x` does not because it does not requires grad.
     cycles = FloorSTE.apply(ch_out / groups, 16) * ch_in * _floor(out_x, 16) * out_y * k_x * k_y
     cycles_load_store = out_x * out_y * (ch_out + ch_in) / 8
